@@ -173,8 +173,8 @@ int32_t jls_wr_source_def(struct jls_wr_s * self, const struct jls_source_def_s 
     chunk->offset = jls_raw_chunk_tell(core->raw);
 
     // write
-    ROE(jls_core_update_item_head(core, &core->source_head, chunk));
     ROE(jls_raw_wr(core->raw, &chunk->hdr, buf->start));
+    ROE(jls_core_update_item_head(core, &core->source_head, chunk));
     return 0;
 }
 
